@@ -102,6 +102,17 @@ CLAIMED = {
              "state in-process (quick) and fresh subprocesses (thorough).",
         design="DESIGN §8 C15",
         technique="Lean 4 proof (invariant by induction over histories) over a table regenerated from the source + history correspondence"),
+    "C20": dict(
+        text="Theorems over the Lean model of add_truncated (each while-loop mirrored with a fuel bound): every loop returns "
+             "the first point along its walk whose field equals the target, each step moving the instant forward by exactly "
+             "one unit (so the result is valid, in p's offset, never earlier than p); the second/minute/hour/weekday loops "
+             "always terminate within their fuel; for the time-of-day shapes the result is exactly the earliest matching "
+             "date-time with lower fields zero, and applying t again returns it. PARTIAL: termination of the day-of-month/"
+             "day-of-year/week loops within the fuel and shapes with a day designator are decided by the correspondence "
+             "(thorough tier: every field value, every mode), not yet by theorem; minimality fails for day+minute/second "
+             "without hour (known finding F9, proved counter-witness).",
+        design="DESIGN §8 C20",
+        technique="Lean 4 proof (loop specification + periodicity by linear arithmetic) + model/implementation correspondence"),
     "C03": dict(
         text="Theorems over the Lean model: the six conversions are total on valid dates, produce valid dates and "
              "preserve the Spec day number (so all round trips are identities), for every year in Int and all four "
